@@ -41,7 +41,7 @@ def _observe(net, S, directed):
 
 def run_case(c):
     from pyunicorn.climate import ClimateNetwork
-    S = np.array(c["S4"], dtype=float) / 4.0
+    S = enc.represent(np.array(c["S4"], dtype=float) / 4.0, c["case"])[0]
     ct = c["ctor"]
     kw = {ct["by"]: ct["n"] / ct["d"]}
     events = [{"op": "construct", "by": ct["by"], "n": ct["n"], "d": ct["d"], "nl": ct["nl"]}]
